@@ -78,6 +78,10 @@ func (World) Generate(r *engine.RNG, tier string) *engine.Script {
 		k := constructKinds[r.Intn(len(constructKinds))]
 		op.Struct = "construct:" + k
 		op.Shape = constructShape(r.Fork(), k)
+	} else if r.Chance(1, 5) {
+		k := smallKinds[r.Intn(len(smallKinds))]
+		op.Struct = "new:" + k
+		op.Shape = smallShape(r.Fork(), k)
 	} else {
 		a := adapters.All[r.Intn(len(adapters.All))]
 		if r.Chance(1, 2) {
@@ -118,6 +122,13 @@ var frameCache struct {
 // makeValue builds the value of a "value" op; every call gives a fresh,
 // private instance of the same value.
 func makeValue(op *engine.Op) (val any, bytes []byte, ad *adapters.Adapter, ok bool) {
+	if strings.HasPrefix(op.Struct, "new:") {
+		if op.Shape == nil {
+			return nil, nil, nil, false
+		}
+		v, ok := constructSmall(op.Shape)
+		return v, nil, nil, ok
+	}
 	if strings.HasPrefix(op.Struct, "construct:") {
 		// the instance that is handed out is never touched by the harness (no
 		// warming call that could fill a lazy cache before the tasks start);
